@@ -1,3 +1,249 @@
+// clusterlint decides structural clauses of the ipfs-cluster properties in
+// /verif/properties.jsonl by static analysis of /repo's current sources.
 package main
 
-func main() {}
+import (
+	"crypto/sha256"
+	"encoding/hex"
+	"encoding/json"
+	"flag"
+	"fmt"
+	"io"
+	"io/fs"
+	"os"
+	"path/filepath"
+	"sort"
+	"strconv"
+	"strings"
+	"syscall"
+	"time"
+)
+
+// Result is the complete outcome of one analysis of one tree.
+type Result struct {
+	Digest     string             `json:"digest"`
+	Tier       string             `json:"tier"`
+	Repo       string             `json:"repo"`
+	Packages   int                `json:"packages"`
+	AllPkgs    int                `json:"all_packages"`
+	RepoFuncs  int                `json:"repo_functions"`
+	CGNodes    int                `json:"callgraph_nodes"`
+	CGEdges    int                `json:"callgraph_edges"`
+	DepErrors  []string           `json:"dependency_type_errors"`
+	Timings    map[string]float64 `json:"timings"`
+	AnalysisS  float64            `json:"analysis_wall_s"`
+	Rules      []RuleResult       `json:"rules"`
+	RPCSites   int                `json:"rpc_call_sites"`
+	Controls   []string           `json:"positive_controls"`
+	Mutants    *MutantReport      `json:"mutants,omitempty"`
+	FromCache  bool               `json:"-"`
+	TestsNotes []string           `json:"tests_notes,omitempty"`
+}
+
+var (
+	verifDir string
+)
+
+func main() {
+	var (
+		prop     = flag.String("property", "", "property id (C01..C18) or 'all'")
+		tier     = flag.String("tier", "", "quick|thorough (default: $VERIF_TIER or quick)")
+		repo     = flag.String("repo", "/repo", "repository root")
+		replay   = flag.String("replay", "", "replay file: re-run the rule of that obligation and print its diagnosis")
+		noCache  = flag.Bool("no-cache", false, "do not read the result cache")
+		noEv     = flag.Bool("no-evidence", false, "do not write evidence files (used for mutants / scratch copies)")
+		dump     = flag.Bool("dump", false, "print every obligation")
+		listR    = flag.Bool("rules", false, "list rules and exit")
+		controls = flag.Bool("controls-only", false, "run only the positive controls")
+	)
+	flag.Parse()
+	exe, _ := os.Executable()
+	verifDir = filepath.Dir(filepath.Dir(exe))
+	if v := os.Getenv("VERIF_DIR"); v != "" {
+		verifDir = v
+	}
+	if *tier == "" {
+		*tier = os.Getenv("VERIF_TIER")
+	}
+	if *tier != "thorough" {
+		*tier = "quick"
+	}
+	abs, err := filepath.Abs(*repo)
+	if err != nil {
+		brokenf("%v", err)
+	}
+	repoRoot = abs
+	if *listR {
+		for _, r := range allRules {
+			fmt.Printf("%-7s %-12s floor=%-3d %s %s\n", r.ID, strings.Join(r.Props, ","), r.Floor, r.Tier, r.Title)
+		}
+		return
+	}
+	if *controls {
+		msgs := runControls()
+		for _, m := range msgs {
+			fmt.Println(m)
+		}
+		return
+	}
+	if *replay != "" {
+		doReplay(*replay, *noCache)
+		return
+	}
+	if *prop == "" {
+		fmt.Fprintln(os.Stderr, "usage: clusterlint -property Cxx|all [-tier quick|thorough]")
+		os.Exit(2)
+	}
+	start := time.Now()
+	res := obtain(abs, *tier, *noCache)
+	kf := loadKnown()
+
+	props := []string{*prop}
+	if *prop == "all" {
+		props = props[:0]
+		for i := 1; i <= 18; i++ {
+			props = append(props, fmt.Sprintf("C%02d", i))
+		}
+	}
+	exit := 0
+	for _, id := range props {
+		if verdict(res, kf, id, *tier, *dump, !*noEv, time.Since(start).Seconds()) {
+			exit = 1
+		}
+	}
+	os.Exit(exit)
+}
+
+// digestTree hashes every analysed input: all .go files, go.mod and go.sum
+// under the repository, the analyser binary and the known-findings file.
+func digestTree(root, tier string) string {
+	h := sha256.New()
+	var files []string
+	filepath.WalkDir(root, func(path string, d fs.DirEntry, err error) error {
+		if err != nil {
+			return nil
+		}
+		if d.IsDir() {
+			n := d.Name()
+			if path != root && (n == ".git" || n == "node_modules" || n == "sharness") {
+				return filepath.SkipDir
+			}
+			return nil
+		}
+		if strings.HasSuffix(path, ".go") || d.Name() == "go.mod" || d.Name() == "go.sum" {
+			files = append(files, path)
+		}
+		return nil
+	})
+	sort.Strings(files)
+	for _, f := range files {
+		b, err := os.ReadFile(f)
+		if err != nil {
+			continue
+		}
+		fmt.Fprintf(h, "%s %d\n", strings.TrimPrefix(f, root), len(b))
+		h.Write(b)
+	}
+	if exe, err := os.Executable(); err == nil {
+		if f, err := os.Open(exe); err == nil {
+			io.Copy(h, f)
+			f.Close()
+		}
+	}
+	fmt.Fprintf(h, "tier=%s root=%s\n", tier, root)
+	if tier == "thorough" {
+		// the sensitivity suite is an input of the thorough tier
+		ms, _ := filepath.Glob(filepath.Join(verifDir, "mutants", "*.patch"))
+		sort.Strings(ms)
+		for _, m := range ms {
+			b, _ := os.ReadFile(m)
+			fmt.Fprintf(h, "%s %d\n", filepath.Base(m), len(b))
+			h.Write(b)
+		}
+	}
+	return hex.EncodeToString(h.Sum(nil))[:32]
+}
+
+// obtain returns the analysis result for the current tree, from the cache
+// when an identical tree (same digest) was analysed by the same binary.
+func obtain(root, tier string, noCache bool) *Result {
+	cacheDir := filepath.Join(verifDir, ".cache")
+	os.MkdirAll(cacheDir, 0o755)
+	// serialise concurrent invocations so that 18 checks started together
+	// pay for one analysis
+	lock, err := os.OpenFile(filepath.Join(cacheDir, "lock"), os.O_CREATE|os.O_RDWR, 0o644)
+	if err == nil {
+		syscall.Flock(int(lock.Fd()), syscall.LOCK_EX)
+		defer func() {
+			syscall.Flock(int(lock.Fd()), syscall.LOCK_UN)
+			lock.Close()
+		}()
+	}
+	dg := digestTree(root, tier)
+	cf := filepath.Join(cacheDir, dg+".json")
+	if !noCache {
+		if b, err := os.ReadFile(cf); err == nil {
+			var r Result
+			if json.Unmarshal(b, &r) == nil && r.Digest == dg {
+				r.FromCache = true
+				return &r
+			}
+		}
+	}
+	res := analyse(root, tier)
+	res.Digest = dg
+	if b, err := json.Marshal(res); err == nil {
+		tmp := cf + ".tmp" + strconv.Itoa(os.Getpid())
+		if os.WriteFile(tmp, b, 0o644) == nil {
+			os.Rename(tmp, cf)
+		}
+	}
+	// keep the cache small
+	if ents, err := os.ReadDir(cacheDir); err == nil && len(ents) > 40 {
+		type fe struct {
+			n string
+			t time.Time
+		}
+		var fes []fe
+		for _, e := range ents {
+			if i, err := e.Info(); err == nil && strings.HasSuffix(e.Name(), ".json") {
+				fes = append(fes, fe{e.Name(), i.ModTime()})
+			}
+		}
+		sort.Slice(fes, func(i, j int) bool { return fes[i].t.Before(fes[j].t) })
+		for i := 0; i < len(fes)-30; i++ {
+			os.Remove(filepath.Join(cacheDir, fes[i].n))
+		}
+	}
+	return res
+}
+
+func analyse(root, tier string) *Result {
+	t0 := time.Now()
+	ctl := runControls()
+	p := Load(root, false, true)
+	c := newCtx(p)
+	res := &Result{Tier: tier, Repo: root, Packages: len(p.Repo), AllPkgs: len(p.All), RepoFuncs: p.NumFuncs,
+		DepErrors: p.DepErrs, Timings: p.Timings, Controls: ctl}
+	if p.CG != nil {
+		res.CGNodes = len(p.CG.Nodes)
+		for _, n := range p.CG.Nodes {
+			res.CGEdges += len(n.Out)
+		}
+	}
+	t1 := time.Now()
+	c.prepare()
+	res.RPCSites = len(c.RPC)
+	for _, rule := range allRules {
+		if rule.Tier == "thorough" && tier != "thorough" {
+			continue
+		}
+		res.Rules = append(res.Rules, runRule(c, rule))
+	}
+	p.Timings["rules_s"] = time.Since(t1).Seconds()
+	if tier == "thorough" {
+		res.Mutants = runMutants(root)
+	}
+	res.AnalysisS = time.Since(t0).Seconds()
+	return res
+}
